@@ -186,6 +186,9 @@ func c01(r *sim.R) *sim.Violation {
 			}
 		}
 		nb := 1 + r.T.Draw(3)
+		if r.T.Chance(1, 10) {
+			nb = 0 // a session that opens the day and closes it again without writing a block
+		}
 		for j := 0; j < nb; j++ {
 			b, note := genRawBlock(r.T, ts, big)
 			b.Enc = s.enc.String()
@@ -206,6 +209,7 @@ func c01(r *sim.R) *sim.Violation {
 			}
 			continue
 		}
+		m.Touch(s.iface, model.DayOf(s.dirTS))
 		for _, b := range s.blocks {
 			m.AddTo(s.iface, model.DayOf(s.dirTS), b)
 		}
